@@ -4,6 +4,9 @@ WORLDS = {
     "MW": {"pkg": "mw"},
 }
 
+# real files (index-header mmap, reloader inputs/outputs) live on tmpfs: the runs are syscall-bound
+_SCRATCH = {"VERIF_SCRATCH": "/dev/shm/verif-scratch"}
+
 PROPS = {
     "C46": {
         "world": "MW",
@@ -34,18 +37,34 @@ PROPS = {
         "world": "MW",
         "level": "exploration",
         "technique": "deterministic simulation: seeded interleavings of concurrent lookups on one LazyBinaryReader with the real pool "
-                     "sweeper on the fake clock and a closer; differential against an always-loaded BinaryReader; -race in the thorough tier",
+                     "sweeper on the fake clock and a closer; differential against an always-loaded BinaryReader; a final phase of "
+                     "truly concurrent lookups/unloads for the race detector (-race in the thorough tier)",
         "design_ref": "DESIGN.md §6 C16",
-        "quick": {"runs": 4000, "seconds": 45},
-        "thorough": {"runs": 200000, "seconds": 600},
+        "quick": {"runs": 30000, "seconds": 40},
+        "thorough": {"runs": 400000, "seconds": 540},
         "race": True,
         "crash_is_violation": True,
-        "env": {"VERIF_SCRATCH": "/dev/shm/verif-scratch", "GORACE": "halt_on_error=1"},
-        "rule": "placeholder",
-        "components": {"real": [], "stub": []},
-        "assumptions": [],
-        "text": "",
-        "note": "",
+        "env": dict(_SCRATCH, GORACE="halt_on_error=1"),
+        "rule": "one evaluation = one real TSDB block (4 variants, 2-15 series; index-header memory-mapped from a real file) served by a "
+                "real ReaderPool (lazy, idle timeout 100ms/1s/5m, eager or lazy download) to 2-4 reader tasks issuing 2-6 generated calls "
+                "each (LabelNames, LabelValues, PostingsOffsets, PostingsOffset, LookupSymbol, IndexVersion; present and absent names/values) "
+                "while the pool's own sweeper runs on the fake clock and a closer performs 0-3 Close calls on the reader or the pool; the "
+                "scheduler decides every step including the two windows of the RLock->Lock->RLock upgrade in load(); every answer is "
+                "compared with an in-memory BinaryReader over the same index. distinct = distinct event-log hash; non-trivial = at least "
+                "one correct answer and at least one reload after an unload.",
+        "components": {
+            "real": ["indexheader.ReaderPool incl. its idle-sweeper goroutine", "indexheader.LazyBinaryReader", "indexheader.BinaryReader over a "
+                     "memory-mapped index-header file", "indexheader.WriteBinary", "Prometheus tsdb.CreateBlock (fixture, outside the bubble)"],
+            "stub": ["clock (testing/synctest)", "goroutine scheduling (two verifhook.Yield sites in LazyBinaryReader.load)",
+                     "object storage: objstore in-memory bucket with non-parking seeded GetRange failures (reads happen under the reader's lock)"],
+        },
+        "assumptions": ["a call may fail with the documented 'concurrently unloaded' error or, when a bucket fault was injected, with that "
+                        "fault's error; any other error is reported as harness trouble, not as a verdict",
+                        "returned strings are copied before the next scheduling point (LabelValues returns strings that point into the mapping)"],
+        "text": "Interleavings at the lock-free points are sampled by the seeded scheduler; interleavings inside a critical section are not "
+                "schedulable and are covered only by the final concurrent phase under the race detector.",
+        "note": "A read of unmapped memory becomes a recovered panic (SetPanicOnFault) and is reported as no-read-after-close; a process death "
+                "is re-executed alone and reported as process-crash.",
     },
     "C47": {
         "world": "MW",
@@ -53,13 +72,29 @@ PROPS = {
         "technique": "deterministic simulation: generated histories of file edits/additions/removals, environment changes and reload "
                      "outcomes applied to real files; the world plays Watch's loop around the real apply()",
         "design_ref": "DESIGN.md §6 C47",
-        "env": {"VERIF_SCRATCH": "/dev/shm/verif-scratch"},
-        "quick": {"runs": 4000, "seconds": 45},
-        "thorough": {"runs": 200000, "seconds": 600},
-        "rule": "placeholder",
-        "components": {"real": [], "stub": []},
-        "assumptions": [],
-        "text": "",
-        "note": "",
+        "env": dict(_SCRATCH),
+        "quick": {"runs": 20000, "seconds": 40},
+        "thorough": {"runs": 400000, "seconds": 540},
+        "rule": "one evaluation = one layout (config file with/without output file, 0-2 config directories with output directories, 0-1 "
+                "watched directory; 6 layouts) with 0-4 files per directory (plain or gzip, with $(VAR) references, references to a "
+                "never-set variable tolerated or not) and a history of 2-12 operations (edit, add, remove, rewrite-same-bytes, setenv; "
+                "notifications delivered or lost) interleaved by the seeded scheduler with the reloader's applies and with reload "
+                "requests that succeed, return 503, fail to connect, or hang until the reloader's deadline; then failures stop and 3 "
+                "watch intervals pass. distinct = distinct event-log hash; non-trivial = at least one successful reload and more than one apply.",
+        "components": {
+            "real": ["reloader.Reloader.apply / normalize / expandEnv / hashFile", "reloader.HTTPReloader over http.Client", "runutil.RetryWithLog",
+                     "real files and directories, real process environment"],
+            "stub": ["Reloader.Watch: fsnotify watcher and its debounce are replaced by a mirror of Watch's loop driven by a one-slot "
+                     "'notification pending' channel (notifications may be lost; the watch interval then triggers the apply)",
+                     "Prometheus: http.RoundTripper deciding ok / 503 / connection error / hang from the seed", "clock (testing/synctest)",
+                     "PIDReloader (signal-based reload) is not exercised"],
+        },
+        "assumptions": ["local files are not torn; edits never interleave with apply's reading of the files (apply has no scheduling point before the reload request)",
+                        "a change of an environment variable alone permits but does not require a reload",
+                        "the first apply of a reloader must trigger a reload", "config directories always have an output directory"],
+        "text": "Histories, layouts, fault placement and interleavings are sampled from the seed.",
+        "note": "Oracle: outputs == inputs with $(VAR) substituted (own scanner), no output without an input, the last successful reload was "
+                "triggered by an apply that saw the final content, and no reload request is sent when neither content nor environment changed "
+                "since the last successful reload and no attempt failed since.",
     },
 }
